@@ -74,7 +74,8 @@ def run_slotmap(ctx, binary):
     elif not ctx.thorough:
         ctx.tlc_mc("odb", "SlotMap", consts=dict(fixes, NSlots=2, Files="{1, 2, 3}", AllowOverflow="TRUE"), workers=4, timeout=1200, coverage=False)
     else:
-        ctx.tlc_mc("odb", "SlotMap", consts=dict(fixes, NSlots=3, Files="{1, 2, 3, 4}", AllowOverflow="TRUE"), workers=8, timeout=3000, coverage=False, xmx="12g")
+        ctx.tlc_mc("odb", "SlotMap", consts=dict(fixes, NSlots=3, Files="{1, 2, 3}", AllowOverflow="TRUE"), workers=8, timeout=3000, coverage=False, xmx="12g")
+        # (3 slots x 4 files: 13.9 M distinct states, 35 min with 3 workers - run once by hand, see DESIGN.md)
     if ctx.thorough:
         # self-tests: the seeded change (no new generation on slot reuse) and the allocation as it was found must violate the model's properties
         ctx.tlc_mc("odb", "SlotMap", consts=dict(fixes, NSlots=2, Files="{1, 2, 3}", AllowOverflow="TRUE", Bug_NoGenBump="TRUE"), workers=4,
@@ -82,7 +83,7 @@ def run_slotmap(ctx, binary):
         ctx.tlc_mc("odb", "SlotMap", consts={"Fix_KeepLive": "FALSE", "Fix_Precount": "FALSE", "NSlots": 2, "Files": "{1, 2, 3}", "AllowOverflow": "TRUE"},
                    workers=1, timeout=1200, coverage=False, expect_violation="EveryFileHasItsSlot")
     pool, probe = pack_pool(ctx)
-    hist = ctx.tlc_gen("odb", "SlotMap_Gen", consts=dict(fixes, MaxSteps=24), workers=1, sim="num=%d" % (int(os.environ.get("VERIF_C12_NSIM", "150")) if not ctx.thorough else 2000), timeout=900)
+    hist = ctx.tlc_gen("odb", "SlotMap_Gen", consts=dict(fixes, MaxSteps=24), workers=1, sim="num=%d" % (int(os.environ.get("VERIF_C12_NSIM", "150")) if not ctx.thorough else 800), timeout=900)
     for c in hist:
         c.update({"op": "slotmap", "slots": 3, "pool": pool, "probe": probe})
     res = ctx.harness(binary, hist, timeout=600, max_failures=3)
@@ -146,7 +147,7 @@ def run(ctx):
         rest = [c for c in cases if not any(s["env"] == "repack_ad" for s in c["steps"])]
         cases = key + ctx.rng.sample(rest, min(len(rest), 250))
     else:
-        cases = ctx.rng.sample(cases, min(len(cases), 6000))
+        cases = ctx.rng.sample(cases, min(len(cases), 2500))
     for c in cases:
         c["op"] = "calls"
         c["objects"] = objects
@@ -171,7 +172,7 @@ def run(ctx):
                 break
     # long histories drawn by TLC's simulator: a third handle that keeps deleted packs available is opened and dropped,
     # several maintenance steps, three slots only (slots of vanished packs are reused)
-    hist = ctx.tlc_gen("odb", "OdbHist_Gen", consts={"MaxSteps": 30}, workers=1, sim="num=%d" % (40 if not ctx.thorough else 400), timeout=600,
+    hist = ctx.tlc_gen("odb", "OdbHist_Gen", consts={"MaxSteps": 30}, workers=1, sim="num=%d" % (40 if not ctx.thorough else 160), timeout=600,
                        ) if True else []
     for c in hist:
         c["op"] = "calls"
